@@ -573,6 +573,29 @@ def run_laws(task):
                     note("no-gitconfig-reads-gitconfig:" + "+".join(extra), "`delta --no-gitconfig %s` depends on ~/.gitconfig: "
                          "status %d / %d, output %r vs %r" % (" ".join(extra), outs[0][0], outs[1][0], outs[0][1][:200],
                                                               outs[1][1][:200]), ["--no-gitconfig"] + extra, None)
+            # ... whichever other option or variable names a gitconfig source: `--config <file>` and `git -c delta.x=y`
+            # (GIT_CONFIG_PARAMETERS) are gitconfig sources too
+            gcps = ["'delta.line-numbers'='true'", "'delta.features'='zebra-theme'", "'delta.plus-style'='red' 'delta.navigate'="]
+            for extra, inp in ((["--show-config"], b""), ([], data)):
+                e0 = {"HOME": empty, "XDG_CONFIG_HOME": empty, "GIT_CONFIG_GLOBAL": os.path.join(empty, ".gitconfig")}
+                ref = run_cli(["--no-gitconfig", "--paging=never", "--dark"] + extra, inp, env=e0, cwd=empty)[:2]
+                for cfgfile in (None, os.path.join(full, ".gitconfig")):
+                    for gcp in [None] + gcps:
+                        if cfgfile is None and gcp is None:
+                            continue
+                        for h in (full, empty):
+                            e = {"HOME": h, "XDG_CONFIG_HOME": h, "GIT_CONFIG_GLOBAL": os.path.join(h, ".gitconfig")}
+                            if gcp:
+                                e["GIT_CONFIG_PARAMETERS"] = gcp
+                            a = ["--no-gitconfig"] + (["--config=" + cfgfile] if cfgfile else []) + ["--paging=never", "--dark"] + extra
+                            got = run_cli(a, inp, env=e, cwd=h)[:2]
+                            n += 1
+                            distinct.add((tuple(extra), cfgfile is None, gcp))
+                            if got != ref:
+                                note("no-gitconfig-reads-gitconfig:" + ("--config" if cfgfile else "") + ("+git-c" if gcp else ""),
+                                     "`delta %s`%s depends on a gitconfig source: status %d / %d, output %r vs %r"
+                                     % (" ".join(a), " with GIT_CONFIG_PARAMETERS=" + gcp if gcp else "", got[0], ref[0],
+                                        got[1][:200], ref[1][:200]), a, {"git_config_parameters": gcp} if gcp else None)
         elif which == "three-ways":
             # a built-in feature is the same feature however it is enabled: by its flag, by --features, by
             # DELTA_FEATURES (features it enables in turn included)
